@@ -259,3 +259,10 @@ pub fn msg_brief(m: &Message) -> String {
         m.get_snapshot().get_metadata().index
     )
 }
+
+/// True when the union of both voter sets of the node's own configuration is exactly {self}:
+/// such a node wins an election inside campaign() without any vote response.
+pub fn sole_voter(rn: &RawNode<SimStore>) -> bool {
+    let v = rn.raft.prs().conf().voters().ids();
+    v.len() == 1 && v.contains(rn.raft.id)
+}
